@@ -3,11 +3,16 @@
    No Extract Constant. *)
 Require Import ExtrOcamlBasic.
 Require Import Selen.Model.Prelude Selen.Model.SparseSet Selen.Model.SetSpec.
+Require Import Selen.Model.Dom Selen.Model.Views Selen.Model.PropDefs Selen.Model.Props.Basic Selen.Model.Props.LinInt Selen.Model.Propagate Selen.Model.Search.
 Extraction Language OCaml.
 Set Extraction AccessOpaque.
 Cd "Extract".
 Extraction "selen_model.ml"
   ss_new ss_new_from_values ss_run ss_step ss_iter ss_complement_iter ss_min ss_max ss_is_empty
   ss_is_fixed ss_first ss_last ss_contains ss_is_subset_of ss_equals ss_remove size
-  spec_init spec_step spec_run cur bad universe.
+  spec_init spec_step spec_run cur bad universe
+  drange dof_values cset_min cset_max vtimes vtimes_neg vminus vbnd vset vmin vmax all_fixed
+  mk_add mk_sub mk_leq mk_lt mk_geq mk_gt mk_eq mk_neq_noop mk_sum
+  mk_lin_eq mk_lin_le mk_lin_ne mk_lin_eq_reif mk_lin_le_reif mk_lin_ne_reif
+  fifo lcg_pick propagate prop_fuel agenda_with search enumerate minimize maximize solve.
 Cd "..".
